@@ -127,6 +127,10 @@ class Driver:
             self.answer(cmd)
 
     def _on_put(self, cmd):
+        if cmd.kind == "xtrigger-func":
+            TR.emit("xt_call", n=cmd.n, sig=cmd.ctx.get_signature(), label=cmd.ctx.label, intvl=int(cmd.ctx.intvl),
+                    clock=int(self.clock.now - self.clock.BASE))
+            return
         TR.emit("cmd_put", n=cmd.n, kind=str(cmd.kind), dirs=cmd.job_dirs(), refused=cmd.refused)
 
     # ------------------------------------------------------------------ environment actions
@@ -233,8 +237,14 @@ class Driver:
                 out.append(f"[TASK JOB SUMMARY]{TS}|{d}|{0 if killed else 1}\n")
             ctx.out = "".join(out)
             ctx.ret_code = 0
+        elif kind == "xtrigger-func":
+            sig = ctx.get_signature()
+            ok = self.rng.random() < self.policy.get("p_xt_ok", 0.4)
+            ctx.out = json.dumps([ok, {"succeed": ok}])
+            ctx.ret_code = 0
+            TR.emit("xt_ret", n=cmd.n, sig=sig, ok=ok)
         else:
-            # event handlers, remote-init, xtriggers (answered by dedicated code paths later)
+            # event handlers, remote-init
             ctx.out = ""
             ctx.ret_code = 0
         ctx.timestamp = TS
